@@ -19,6 +19,10 @@ use {
 pub struct Replayer {
   /// id -> (sequence number, charms at creation, location; None = unbound, parents)
   pub inscriptions: BTreeMap<InscriptionId, (u32, u16, Option<SatPoint>, Vec<InscriptionId>)>,
+  /// id -> block height named by the creation event
+  pub created_at: BTreeMap<InscriptionId, u32>,
+  /// highest block height named by any event so far
+  last_height: u32,
   pub etched: BTreeMap<RuneId, Txid>,
   pub mints: BTreeMap<RuneId, (u128, u128)>, // count, total amount
   pub burned: BTreeMap<RuneId, u128>,
@@ -38,17 +42,56 @@ impl Replayer {
     }
   }
 
+  /// The stream is emitted while blocks are indexed in height order, and a rune
+  /// event cannot precede the block that etched its rune.
+  fn heights(&mut self, event: &Event) {
+    let (height, rune) = match event {
+      Event::InscriptionCreated { block_height, .. } | Event::InscriptionTransferred { block_height, .. } => {
+        (*block_height, None)
+      }
+      Event::RuneBurned {
+        block_height, rune_id, ..
+      }
+      | Event::RuneEtched {
+        block_height, rune_id, ..
+      }
+      | Event::RuneMinted {
+        block_height, rune_id, ..
+      }
+      | Event::RuneTransferred {
+        block_height, rune_id, ..
+      } => (*block_height, Some(*rune_id)),
+    };
+    if height < self.last_height {
+      self.errors.push(format!(
+        "event of block {height} after an event of block {}: {event:?}",
+        self.last_height
+      ));
+    }
+    self.last_height = self.last_height.max(height);
+    if let Some(id) = rune {
+      let etching = matches!(event, Event::RuneEtched { .. });
+      if (etching && u64::from(height) != id.block) || u64::from(height) < id.block {
+        self
+          .errors
+          .push(format!("rune {id} named by an event of block {height}: {event:?}"));
+      }
+    }
+  }
+
   pub fn apply(&mut self, event: &Event, inputs_of: &dyn Fn(Txid) -> Vec<OutPoint>) {
+    self.heights(event);
     match event {
       Event::InscriptionCreated {
+        block_height,
         charms,
         inscription_id,
         location,
         parent_inscription_ids,
         sequence_number,
-        ..
       } => {
         *self.counts.entry("inscription_created").or_default() += 1;
+        self.created_at.insert(*inscription_id, *block_height);
         if self
           .inscriptions
           .insert(
@@ -159,6 +202,18 @@ pub fn compare(ex: &Exec, rp: &Replayer, seeded: bool, out: &mut Vec<Violation>)
         P,
         "sequence_number",
         format!("{}: event {seq}, index {}", entry.id, entry.sequence_number),
+      ));
+    }
+    if rp.created_at.get(&entry.id) != Some(&entry.height) {
+      out.push(v(
+        P,
+        "creation_height",
+        format!(
+          "{}: creation event names block {:?}, index height {}",
+          entry.id,
+          rp.created_at.get(&entry.id),
+          entry.height
+        ),
       ));
     }
     if charms & !burned_bit != entry.charms & !burned_bit || (charms & burned_bit != 0 && entry.charms & burned_bit == 0) {
